@@ -273,18 +273,32 @@ def _verify_unit(unit_path, repo, tier, twin, probe_only):
             ttext, torigin, tmeta = assemble(unit_path, repo, twin=True)
             tpath = path.replace('.rs', '_twin.rs')
             open(tpath, 'w').write(ttext)
-            tr = run_verus(tpath, rlimit, multiple_errors=64, extra=extra)
             tlines = ttext.split('\n')
             probe_lines = [k + 1 for k, l in enumerate(tlines) if 'VACUITY-PROBE' in l]
-            failed_lines = set()
-            for d in tr['diags']:
-                if d['level'] == 'error' and 'assertion failed' in d['message']:
-                    for s in d['spans']:
-                        if os.path.basename(s.get('file_name', '')) == os.path.basename(tpath):
-                            failed_lines.add(s['line_start'])
+
+            def twin_run(rl):
+                tr_ = run_verus(tpath, rl, multiple_errors=64, extra=extra)
+                failed_, rl_hit = set(), False
+                for d in tr_['diags']:
+                    if d['level'] == 'error' and 'assertion failed' in d['message']:
+                        for s in d['spans']:
+                            if os.path.basename(s.get('file_name', '')) == os.path.basename(tpath):
+                                failed_.add(s['line_start'])
+                    if d['level'] == 'error' and ('Resource limit' in d['message'] or 'rlimit' in d['message']):
+                        rl_hit = True
+                return tr_, failed_, rl_hit
+            tr, failed_lines, rl_hit = twin_run(rlimit)
+            if rl_hit and any(k not in failed_lines for k in probe_lines):
+                tr2, failed2, rl_hit = twin_run(rlimit * 6)
+                failed_lines |= failed2
+                tr = tr2
             vac = [tlines[k - 1].strip() + ' @%d' % k for k in probe_lines if k not in failed_lines]
-            res['twin'] = {'probes': len(probe_lines), 'refuted': len(probe_lines) - len(vac), 'vacuous': vac,
-                           'wall_s': tr['wall_s']}
+            inconclusive = []
+            if rl_hit and vac:
+                # the solver ran out of resources on a function of the twin: its probes are neither refuted nor verified
+                inconclusive, vac = vac, []
+            res['twin'] = {'probes': len(probe_lines), 'refuted': len(probe_lines) - len(vac) - len(inconclusive), 'vacuous': vac,
+                           'inconclusive_rlimit': inconclusive, 'wall_s': tr['wall_s']}
             if vac:
                 res.update(status='undecided', undecided_reason='vacuity: probe(s) verified: %s' % vac[:3])
         except UnitError as e:
